@@ -155,17 +155,20 @@ PROPS["C02"]["unverified_links"] = [
 PROPS["C02"]["level_note"] += "; state::blockchain_info is verified as a whole (height/hash/timestamp/difficulty of the last block of the served branch); unfiltered get_utxos applies the whole served chain (lemma_unfiltered_walk_serves_the_tip + get_utxos_walk slice)"
 PROPS["C03"]["kani"] = ["canister_leaf", "stable_child"]
 PROPS["C03"]["replays"] = [_rp("f6_depth_rule_compares_with_the_deepest_other_child", "F6")]
-PROPS["C03"]["technique"] = "Verus contracts on the ingestion loop / depth functions + modular Kani check of get_stable_child (callees stubbed by their Verus-proved contracts)"
-PROPS["C03"]["level_note"] = ("get_stable_child is checked by Kani for anchors with <= 3 (thorough: 4) children, each child's subtree ARBITRARY (stubs = Verus-proved "
-                              "contracts of depth / difficulty_based_depth / normalized_stability_threshold, Kani-proved contract of the depth bound): bounded in the number "
-                              "of children only, reported under coverage.bounded and not counted as discharged; unstable_blocks::peek and ::pop are VERIFIED on their real bodies against "
-                              "get_stable_child's contract (pop: the tree becomes exactly the stable child's subtree, the old anchor is returned, None changes nothing); "
+PROPS["C03"]["technique"] = "Verus contracts on the ingestion loop, peek / pop, get_stable_child (unbounded in the number of children) and the depth functions; Kani cross-check of get_stable_child with concrete counterexamples"
+PROPS["C03"]["level_note"] = ("unstable_blocks::get_stable_child is PROVED by Verus on its real decision logic for ANY number of children against stable_child_spec, which is written "
+                              "from the statement (candidate = heaviest child, later one among equals; stable iff the testnet depth rule or the difficulty rule holds against EVERY "
+                              "sibling); lemma_stable_child_never_early / _never_withheld restate the two directions. Its three iterator pipelines are desugared mechanically (R16) "
+                              "and std's stable sort_by_key is an assumed specification (sorted permutation, equal keys keep their order). unstable_blocks::peek and ::pop are "
+                              "verified on their real bodies against that contract. The Kani harnesses of group stable_child (<= 3, thorough 4 children) remain as an independent, "
+                              "bounded cross-check that produces concrete counterexamples (they found defect F6); they are reported under coverage.bounded. "
                               "UtxoSet::ingest_block(_continue), BlockHeaderStore::insert_block assumed (stable structures)")
 PROPS["C03"]["unverified_links"] = [
     "cache side effects inside pop (OutPointsCache::remove, NextBlockHeaders::remove_until_height, remove_from_cache, tip_depths: opaque stand-ins that cannot touch the tree), UtxoSet::ingest_block(_continue)",
-    "get_stable_child for anchors with more than 4 children (Kani bound)",
+    "std sort_by_key (assumed specification), blocks_count and the f64 depth bound (uninterpreted; its range is the Kani contract c03_depth_bound_contract)",
     "stability threshold raised by set_config while a block is being ingested (pop would return None and the repo's expect traps): stated as precondition wf_ingesting",
 ]
+PROPS["C03"]["assumptions"] = COMMON_ASSUMPTIONS + ["threshold x difficulty(b) < 2^128 for every unstable block b (tree_ok)", "stable height + tree height + 2^20 < 2^32"]
 
 PROPS["C07"] = dict(
     verus_units=["core"],
